@@ -858,6 +858,8 @@ def run_corpus(ctx, res, stats, per_program, exhaustive_limit):
             one_case(ctx, res, stats, programs, setup, sc, mode, 'corpus:' + name, expect=expect, record=k < 5)
             if enough(res):
                 return
+            if ctx.deadline and _time.time() > ctx.deadline - 120:
+                break           # slow file system: keep time for the other phases
     # the D12 schedule must exercise the tolerated anomaly
     name, programs, setup, expect = [c for c in corpus() if c[0] == 'reader_vs_replace_file'][0]
     before = stats['anomalies']
@@ -907,7 +909,9 @@ def run_enumerated(ctx, res, stats, nprograms, limit):
             one_case(ctx, res, stats, programs, setup, sc, 'own' if k % 2 else 'shared', 'enum:%d' % done, record=k < 3)
             if enough(res):
                 return
-        if ctx.deadline and _time.time() > ctx.deadline:
+            if ctx.deadline and _time.time() > ctx.deadline - 60:
+                break
+        if ctx.deadline and _time.time() > ctx.deadline - 60:
             break
 
 
@@ -958,7 +962,7 @@ def soak_worker(directory, wid, nrounds, npop, out_path):
 
 def soak(ctx, res, stats, nproc=3, nthreads=3, nrounds=150, npop=60):
     import json
-    d = ctx.scratch('soak')
+    d = concdrv.scratch(ctx, 'soak')
     c = diskcache.Cache(d, timeout=60, disk_min_file_size=8)
     for k in range(npop):
         c.set('pop-%d' % k, 'P%d' % k + '#' * (30 if k % 2 else 0))
@@ -1061,8 +1065,9 @@ def run(ctx, big=False):
     t0 = _time.time()
     if ctx.quick and not big:
         ctx.deadline = t0 + 200
-        run_corpus(ctx, res, stats, per_program=40, exhaustive_limit=0)
-        run_random(ctx, res, stats, 170, ['own', 'shared'], drivers=('thread', 'thread', 'thread', 'process'))
+        run_corpus(ctx, res, stats, per_program=80, exhaustive_limit=0)
+        run_enumerated(ctx, res, stats, 3, 150)
+        run_random(ctx, res, stats, 600, ['own', 'shared'], drivers=('thread', 'thread', 'thread', 'process'))
     else:
         ctx.deadline = t0 + (1300 if not ctx.quick else 420)
         run_corpus(ctx, res, stats, per_program=400, exhaustive_limit=1500)
